@@ -534,11 +534,13 @@ fn do_case(run: &mut Run, ctl: &mut Ctl, c: &Case, tag: &str, pre: Option<ChildR
     if has_meas {
         run.count("case with measurement calibrations");
     }
-    if grows || has_meas {
+    // the long-chain family always runs in a child first: a missed cycle aborts the process
+    let guarded = tag.starts_with("long-");
+    if grows || has_meas || guarded {
         ctl.children += 1;
         match pre.unwrap_or_else(|| run_child(c, true, ctl.small_timeout)) {
             ChildResult::Exited(0) | ChildResult::Exited(3) => {
-                run.count("growing-class case that terminates (compared with the model)");
+                run.count(if grows { "growing-class case that terminates (compared with the model)" } else { "child-guarded case outside the growing class that terminates (compared with the model)" });
             }
             ChildResult::Exited(code) => {
                 run.process_failure(&format!("child exited with unexpected status {code}"), &text, None);
@@ -749,6 +751,79 @@ Definition K n p q b := {| c_name := n; c_ppat := p; c_q := q; c_body := b |}.";
         all.push((c.clone(), "corpus"));
     }
 
+    // ---- 1b. LONG chains: k = 1..9 distinct instructions G0 -> G1 -> ... -> G(k-1), closing a cycle
+    //          (G(k-1) -> G0) or ending in NOP, entered through a tail of 0..3 further distinct
+    //          instructions, optionally with NOPs around every call.  The instructions differ by
+    //          literal parameter / qubit / gate name+parameter / raw closed expression ((j)+1).
+    //          Every one of these runs in a child process first.
+    {
+        let mut n_long = 0u64;
+        for k in 1..=9usize {
+            for variant in 0..4usize {
+                for tail in 0..=3usize {
+                    for nops in [false, true] {
+                        if !thorough && !(tail == 0 || tail == (k % 3) + 1) {
+                            continue;
+                        }
+                        if !thorough && nops != ((k + variant + tail) % 2 == 0) {
+                            continue;
+                        }
+                        for cyclic in [true, false] {
+                            // G j: (name, literal parameter value, qubit pattern of its calibration, the instruction)
+                            let node = |j: usize| -> (usize, u64, Q) {
+                                match variant {
+                                    0 => (1, j as u64, Q::V),                 // X(j) q
+                                    1 => (1, 0, Q::F(j as u64)),             // X(0) j
+                                    2 => (j % 3, (j / 3) as u64, Q::V),      // RX/X/Y (j/3) q
+                                    _ => (0, j as u64, Q::V),                // RX(j) q, invoked as RX(((j-1)+1)) q
+                                }
+                            };
+                            let call = |j: usize, from_cycle: bool| -> I {
+                                let (n, v, q) = node(j);
+                                let qq = if q == Q::V { Q::V } else { q };
+                                if variant == 3 && j > 0 && from_cycle {
+                                    I::Gate(n, P { plus: 1, base: Some(v - 1) }, qq)
+                                } else {
+                                    I::Gate(n, lit(v), qq)
+                                }
+                            };
+                            let wrap = |i: I| -> Vec<I> { if nops { vec![I::Nop, i, I::Nop] } else { vec![i] } };
+                            let mut cals: Vec<Cal> = Vec::new();
+                            // tail T0 -> T1 -> ... -> G0 : FOO-free names, parameters 20.. so they never collide
+                            for t in 0..tail {
+                                let next = if t + 1 < tail { I::Gate(2, lit(20 + t as u64 + 1), Q::V) } else { call(0, false) };
+                                cals.push(Cal { name: 2, ppat: Some(20 + t as u64), q: Q::V, body: wrap(next) });
+                            }
+                            for j in 0..k {
+                                let (n, v, q) = node(j);
+                                let body = if j + 1 < k {
+                                    wrap(call(j + 1, true))
+                                } else if cyclic {
+                                    wrap(call(0, false))
+                                } else {
+                                    vec![I::Nop]
+                                };
+                                cals.push(Cal { name: n, ppat: Some(v), q, body });
+                            }
+                            // entry: concrete qubit 0 (variant 1: the chain walks over qubits 0..k-1)
+                            let conc = |i: I| -> I {
+                                match i {
+                                    I::Gate(n, p, Q::V) => I::Gate(n, p, Q::F(0)),
+                                    other => other,
+                                }
+                            };
+                            let entry = if tail > 0 { I::Gate(2, lit(20), Q::F(0)) } else { conc(call(0, false)) };
+                            let prog = if nops { vec![I::Nop, entry, I::Nop] } else { vec![entry] };
+                            all.push((Case { cals, prog }, if cyclic { "long-cycle" } else { "long-chain" }));
+                            n_long += 1;
+                        }
+                    }
+                }
+            }
+        }
+        run.count_n("long-chain family cases (k = 1..9, child-guarded)", n_long);
+    }
+
     // ---- 2. exhaustive: one calibration, bodies of length <= 2 (+ every pair of one-instruction
     //         calibrations in thorough) ----------------------------------------------------------
     let mut alpha: Vec<I> = vec![I::Nop];
@@ -865,6 +940,8 @@ Definition K n p q b := {| c_name := n; c_ppat := p; c_q := q; c_body := b |}.";
         }
         grow_idx = keep;
     }
+    // the long-chain family is never capped
+    grow_idx.extend((0..all.len()).filter(|&k| all[k].1.starts_with("long-") && !growing(&all[k].0)));
     let results: std::sync::Mutex<std::collections::HashMap<usize, ChildResult>> = Default::default();
     let next = std::sync::atomic::AtomicUsize::new(0);
     let timeout = ctl.small_timeout;
@@ -899,8 +976,11 @@ Definition K n p q b := {| c_name := n; c_ppat := p; c_q := q; c_body := b |}.";
         "corpus of hand-written self-/mutually-recursive, literal-caught and diverging sets; exhaustive: every single \
          calibration over {RX,X} x {%t,0} x {0,q} with every body of length <= 2 over NOP and gates {RX,X} x {0,%t,%t+1} x {0,q}, \
          two programs each, and pairs of one-instruction calibrations (every 8th in quick tier); seeded random sets of 1..4 \
-         calibrations over RX/X/Y (+ uncalibrated FOO) with bodies of 1..3 instructions. Sets in the growing class run in a \
-         child process first. Distinct by Quil text; non-trivial = something was expanded or the recursive error was returned.",
+         calibrations over RX/X/Y (+ uncalibrated FOO) with bodies of 1..3 instructions; LONG chains of k = 1..9 distinct \
+         instructions (distinct by literal parameter / qubit / name+parameter / raw closed expression) closing a cycle or ending \
+         in NOP, entered through a tail of 0..3 further instructions, with and without NOPs around the calls. Sets in the growing \
+         class, sets with measurement calibrations and the whole long-chain family run in a child process first (a crash or \
+         timeout outside the growing class is a violation). Distinct by Quil text; non-trivial = something was expanded or the recursive error was returned.",
         true,
         serde_json::json!({"exhaustive_cases": exhaustive_cases, "random_cases": nrand, "children": ctl.children, "crashes": ctl.crashes, "mutant": mutant()}),
     );
